@@ -13,8 +13,9 @@ from .source import Repo
 
 
 class CallGraph:
-    def __init__(self, repo):
+    def __init__(self, repo, overrides=None):
         self.repo = repo
+        self._overrides = overrides or {}
         self.funcs = {}          # qual -> FunctionDef
         for cname, ci in repo.classes.items():
             for mname, node in ci.methods.items():
@@ -25,6 +26,7 @@ class CallGraph:
                 self.funcs['%s.%s.setter' % (cname, mname)] = node
         for fname, (node, mod) in repo.functions.items():
             self.funcs[fname] = node
+        self.funcs.update(self._overrides)
         self.by_name = {}
         for q in self.funcs:
             parts = q.split('.')
@@ -125,3 +127,153 @@ class CallGraph:
                     if t in names:
                         out.append((q, n.lineno, t))
         return out
+
+
+MUTATING_METHODS = ('append', 'add', 'extend', 'update', 'pop', 'sort', 'insert', 'remove', 'clear',
+                    'setdefault', 'popitem', 'discard', 'fill', 'resize')
+
+
+def _root_name(node):
+    while isinstance(node, (ast.Attribute, ast.Subscript, ast.Call)):
+        node = node.func if isinstance(node, ast.Call) else node.value
+    return node.id if isinstance(node, ast.Name) else None
+
+
+def _has_attr(node):
+    while isinstance(node, (ast.Attribute, ast.Subscript)):
+        if isinstance(node, ast.Attribute):
+            return True
+        node = node.value
+    return False
+
+
+def _norm(node):
+    """text of a store target with subscripts abstracted"""
+    if isinstance(node, ast.Subscript):
+        return _norm(node.value) + '[..]'
+    if isinstance(node, ast.Attribute):
+        return _norm(node.value) + '.' + node.attr
+    if isinstance(node, ast.Name):
+        return node.id
+    if isinstance(node, ast.Call):
+        return _norm(node.func) + '()'
+    return '?'
+
+
+def state_writes(fnode):
+    """every write in a function that can outlive the call: stores to attributes
+    (plain, augmented, subscripted), mutating method calls on attribute-rooted
+    values, setattr/delattr, in-place operations on parameters or on names that
+    alias an attribute.  Plain local variable assignments are not state."""
+    params = set(a.arg for a in fnode.args.args + fnode.args.kwonlyargs)
+    if fnode.args.vararg:
+        params.add(fnode.args.vararg.arg)
+    aliases = {}         # local name -> attribute text it was assigned from
+    out = []
+    for n in ast.walk(fnode):
+        if isinstance(n, ast.Assign) and len(n.targets) == 1 and isinstance(n.targets[0], ast.Name):
+            v = n.value
+            if isinstance(v, (ast.Attribute, ast.Subscript)) and _has_attr(v):
+                aliases[n.targets[0].id] = _norm(v)
+    for n in ast.walk(fnode):
+        # `for s in self.segends: s[-1] = 0.0` : the loop variable aliases elements of an attribute
+        if isinstance(n, ast.For) and isinstance(n.target, ast.Name) and _has_attr(n.iter) \
+                and not isinstance(n.iter, ast.Call):
+            aliases[n.target.id] = 'element of ' + _norm(n.iter)
+    fresh_locals = set()
+    for n in ast.walk(fnode):
+        if isinstance(n, ast.Assign):
+            for t in n.targets:
+                if isinstance(t, ast.Name) and t.id not in aliases:
+                    fresh_locals.add(t.id)
+        elif isinstance(n, (ast.For, ast.comprehension)):
+            for t in ast.walk(n.target):
+                if isinstance(t, ast.Name) and t.id not in aliases:
+                    fresh_locals.add(t.id)
+
+    def rec(kind, target):
+        out.append((kind, target))
+
+    for n in ast.walk(fnode):
+        targets = []
+        if isinstance(n, ast.Assign):
+            targets = [(t, 'store') for t in n.targets]
+        elif isinstance(n, ast.AugAssign):
+            targets = [(n.target, 'inplace')]
+        elif isinstance(n, (ast.Delete,)):
+            targets = [(t, 'del') for t in n.targets]
+        for t, kind in targets:
+            for tt in (t.elts if isinstance(t, (ast.Tuple, ast.List)) else [t]):
+                if isinstance(tt, ast.Name):
+                    if kind == 'inplace' and (tt.id in aliases or (tt.id in params and tt.id != 'self')):
+                        # x *= ... on an array parameter / alias mutates the caller's object
+                        if tt.id in aliases:
+                            rec('inplace-alias', '%s (= %s)' % (tt.id, aliases[tt.id]))
+                        else:
+                            rec('inplace-param', tt.id)
+                    continue
+                root = _root_name(tt)
+                if _has_attr(tt):
+                    rec(kind, _norm(tt))
+                elif isinstance(tt, ast.Subscript) and root is not None:
+                    if root in aliases:
+                        rec(kind + '-alias', '%s[..] (= %s)' % (root, aliases[root]))
+                    elif root in params and root != 'self' and root not in fresh_locals:
+                        rec(kind + '-param', root + '[..]')
+        if isinstance(n, ast.Call):
+            f = n.func
+            if isinstance(f, ast.Attribute) and f.attr in MUTATING_METHODS:
+                root = _root_name(f.value)
+                if _has_attr(f.value):
+                    rec('call', _norm(f.value) + '.' + f.attr + '()')
+                elif root in aliases:
+                    rec('call-alias', '%s.%s() (= %s)' % (root, f.attr, aliases[root]))
+                elif root in params and root != 'self' and root not in fresh_locals:
+                    rec('call-param', '%s.%s()' % (root, f.attr))
+            elif isinstance(f, ast.Name) and f.id in ('setattr', 'delattr'):
+                rec(f.id, ast.unparse(n.args[0]) + '.<' + ast.unparse(n.args[1]) + '>')
+    return sorted(set(out))
+
+
+def full_inventory(repo, overrides=None):
+    cg = CallGraph(repo, overrides)
+    inv = {}
+    for q, node in sorted(cg.funcs.items()):
+        w = state_writes(node)
+        if w:
+            inv[q] = w
+    return inv
+
+
+def set_iterations(fnode):
+    """`for` statements / comprehensions iterating directly over a set-kinded
+    expression: a local assigned from set()/set-literal/set-comprehension, or
+    `.union/.intersection/.difference` results, or a call of set(...)."""
+    setvars = set()
+    for n in ast.walk(fnode):
+        if isinstance(n, ast.Assign) and len(n.targets) == 1 and isinstance(n.targets[0], ast.Name):
+            v = n.value
+            if (isinstance(v, ast.Call) and isinstance(v.func, ast.Name) and v.func.id in ('set', 'frozenset')) \
+                    or isinstance(v, (ast.Set, ast.SetComp)):
+                setvars.add(n.targets[0].id)
+    out = []
+    for n in ast.walk(fnode):
+        its = []
+        if isinstance(n, ast.For):
+            its.append(n.iter)
+        elif isinstance(n, ast.comprehension):
+            its.append(n.iter)
+        for it in its:
+            bad = False
+            if isinstance(it, ast.Name) and it.id in setvars:
+                bad = True
+            if isinstance(it, ast.Call) and isinstance(it.func, ast.Name) and it.func.id in ('set', 'frozenset'):
+                bad = True
+            if isinstance(it, ast.Call) and isinstance(it.func, ast.Attribute) and \
+                    it.func.attr in ('union', 'intersection', 'difference', 'symmetric_difference'):
+                bad = True
+            if isinstance(it, (ast.Set, ast.SetComp)):
+                bad = True
+            if bad:
+                out.append((n.lineno, ast.unparse(it)))
+    return out
